@@ -118,7 +118,14 @@ def drive(recipe):
     elif k == "spelling":
         c, styles, sep = recipe["c"], recipe["styles"], recipe["sep"]
         text = propose_spelling(c, styles, sep)
-        t = {"k": k, "c": c, "styles": styles, "sep": sep, "text": text, "exc": "", "code": -1}
+        t = {"k": k, "c": c, "styles": styles, "sep": sep, "text": text, "bytes": [ord(ch) for ch in text], "exc": "", "code": -1}
+        try:
+            t["code"] = int(SymmetryOperation.from_string_code(text).integer_code)
+        except Exception as e:
+            t["exc"] = type(e).__name__
+    elif k == "text":
+        text = recipe["text"]
+        t = {"k": k, "bytes": [ord(ch) if ord(ch) < 256 else 63 for ch in text], "exc": "", "code": -1}
         try:
             t["code"] = int(SymmetryOperation.from_string_code(text).integer_code)
         except Exception as e:
@@ -243,8 +250,54 @@ def run(ctx):
                             "sg": [r["number"], r["choice"], idx, cell]})
         else:
             recipes.append({"k": "apply", "c": rng.randrange(NCODES), "n": n, "pts": pts})
+    # free texts, judged by the specification's own reader (SymopText.tla): the operation strings of the repository's
+    # CIF files, and rows composed term by term (any order, negative numbers, decimals of 3-5 digits, integer translations)
+    import glob, re as _re
+    from harness.common import REPO
+    texts = set()
+    for f in glob.glob(os.path.join(REPO, "src/chmpy/tests/**/*.cif"), recursive=True):
+        for line in open(f, errors="replace"):
+            m = _re.search(r"['\"]?\s*([-+0-9/. xyzXYZ]+,[-+0-9/. xyzXYZ]+,[-+0-9/. xyzXYZ]+)\s*['\"]?\s*$", line.strip())
+            if m and _re.search(r"[xyzXYZ]", m.group(1)):
+                texts.add(m.group(1).strip())
+    decs = {1: ["0.0833", "0.08333"], 2: ["0.1667", "0.16667", ".1667"], 3: ["0.25", ".25", "0.250"], 4: ["0.333", "0.3333", "0.33333"],
+            5: ["0.4167"], 6: ["0.5", ".5", "0.50"], 7: ["0.5833"], 8: ["0.667", "0.6667", "0.66667"], 9: ["0.75", ".75"],
+            10: ["0.8333", "0.83333"], 11: ["0.9167"]}
+    for _ in range(ctx.pick(1500, 30000)):
+        rows_ = []
+        for _r in range(3):
+            axes = rng.sample([0, 1, 2], rng.choice([1, 1, 1, 2, 2, 3]))
+            terms = [rng.choice(["+", "-", ""]) + "xyz"[a] for a in axes]
+            if rng.random() < 0.6:
+                k12 = rng.randint(1, 11)
+                u = rng.random()
+                if u < 0.45:
+                    import math as _m
+                    g = _m.gcd(k12, 12)
+                    num = "%d/%d" % (k12 // g, 12 // g)
+                elif u < 0.85:
+                    num = rng.choice(decs[k12])
+                else:
+                    num = rng.choice(["1", "2", "0"])
+                terms.append(rng.choice(["+", "-", ""]) + num)
+            rng.shuffle(terms)
+            row = ""
+            for i, tm in enumerate(terms):
+                if i > 0 and tm[0] not in "+-":
+                    tm = "+" + tm
+                row += tm
+            if rng.random() < 0.2:
+                row = row.upper()
+            if rng.random() < 0.3:
+                row = " " + row.replace("+", " + ") + " "
+            rows_.append(row)
+        texts.add(",".join(rows_))
+    ctx.notes["free_texts"] = len(texts)
+    recipes += [{"k": "text", "text": tx, "src": "free-text"} for tx in sorted(texts)]
     traces = pool_map(drive, recipes)
     ctx.validate("trace/Trace_Symop.tla", traces, batch=60000, timeout=1200)
+    if any("spec-reader" in k for k in ctx.ood_reasons):
+        raise tlc.TLCFailure("SymopText reader disagrees with the Symop spelling grammar: %s" % ctx.ood_reasons)
     enumerated = 0
     if not ctx.quick:
         # walk the complete code space in chunks while the budget lasts
